@@ -200,48 +200,64 @@ def rule_hook(E, R):
     if not clo:
         return R.cannot(rule, fn, "hook closure not found")
     cb = clo["body"]
+    S = sem.Sem(E, h, inline=False)
+    sites = [x for x in S.sites() if sem.within(x, clo)]
+    own = [x for x in S.sites() if x.node is clo]
+    base = len(own[0].pc) if own else 0
+    is_level = lambda n: bool(_tls_with(n, "PANIC_CATCHER_LEVEL"))
+    catching = lambda x: _call_lit(x.pc, is_level)
+    # the level test itself: `level > 0` inside the thread-local accessor
+    lvs = [x for x in sites if x.node.get("k") == "MethodCall" and x.node in _tls_with(x.node, "PANIC_CATCHER_LEVEL")]
+    good = False
+    cmpz = []
+    if len(lvs) == 1:
+        c2 = _closure_in(lvs[0].node)
+        cmpz = [b_ for b_ in exprs(c2["body"], "Binary")] if c2 else []
+        good = len(cmpz) == 1 and ((cmpz[0]["op"] == "Gt" and lit_value(cmpz[0]["r"]) == 0) or
+                                   (cmpz[0]["op"] == "Ne" and lit_value(cmpz[0]["r"]) == 0) or
+                                   (cmpz[0]["op"] == "Ge" and lit_value(cmpz[0]["r"]) == 1) or
+                                   (cmpz[0]["op"] == "Lt" and lit_value(cmpz[0]["l"]) == 0))
+    recs = [x for x in sites if x.node.get("k") == "Call" and _recorder_of(E, x.node) is not None]
+    rec_on = [x for x in recs if catching(x) is True]
     rec_if = None
-    for i in exprs(cb, "If", into_closures=False):
-        lv = _tls_with(i["cond"], "PANIC_CATCHER_LEVEL")
-        if lv:
-            rec_if = i
-            c2 = _closure_in(lv[0])
-            cmpz = [b for b in exprs(c2["body"], "Binary")] if c2 else []
-            good = len(cmpz) == 1 and cmpz[0]["op"] == "Gt" and lit_value(cmpz[0]["r"]) == 0
-            # the level alone decides: no other flag may be and-ed / or-ed into the condition
-            whole = strip(i["cond"])
-            alone = whole is lv[0] or (whole.get("k") == "MethodCall" and whole is strip(lv[0]))
-            others = [k for k in ("PANIC_CATCHER_ENABLED", "PANIC_CATCHER_FALLBACK_MODE", "PANIC_CATCHER_HOOK_SET")
-                      if any((def_path(p) or "").endswith(k) for p in exprs(i["cond"], "Path"))]
-            R.check(alone and not others, rule, fn, "recording depends on the catch level only",
-                    "the condition also involves %s: a panic raised while the level is > 0 (e.g. after disable() inside the closure) "
-                    "would not be recorded and catch_panic would return a stale or placeholder message" % (others or "other terms"), i["sp"])
-            R.check(good, rule, fn, "the hook records iff this thread's catch level is > 0",
-                    "condition is %s %s" % (cmpz[0]["op"] if cmpz else "?", lit_value(cmpz[0]["r"]) if cmpz else "?"), i["sp"])
-    if rec_if is None:
-        R.violation(rule, fn, "the hook records iff this thread's catch level is > 0", "no test of the level found", clo["sp"])
+    if not lvs or not rec_on:
+        R.violation(rule, fn, "the hook records iff this thread's catch level is > 0", "no recording under a test of the level found", clo["sp"])
     else:
-        rec = [c for c in exprs(rec_if["then"], "Call") if _recorder_of(E, c) is not None]
-        bt = _tls_with(rec_if["then"], "PANIC_CATCHER_BACKTRACE")
-        R.check(len(rec) == 1 and len(bt) == 1 and list(exprs(rec_if["then"], "Ret")), rule, fn,
-                "while catching, the message is recorded into the thread's buffer and the hook returns", where=rec_if["sp"])
-    fall = None
-    for m in exprs(cb, "Match", into_closures=False):
-        if _tls_with(m["scrut"], "PANIC_CATCHER_FALLBACK_MODE"):
-            fall = m
-    if fall is None:
-        R.violation(rule, fn, "outside catch_panic the fallback mode decides", "no match on the fallback mode", clo["sp"])
+        x = rec_on[0]
+        # the level alone decides: no other condition on the way to the recording
+        others = []
+        for f_, pol in x.pc[base:]:
+            for a_, p_ in sem.literals(((f_, pol),))[0]:
+                if a_.kind == "call" and a_.node is not None and is_level(strip(a_.node)):
+                    continue
+                others.append(a_)
+            others += sem.literals(((f_, pol),))[1]
+        R.check(not others, rule, fn, "recording depends on the catch level only",
+                "the recording is reached under further conditions: a panic raised while the level is > 0 (e.g. after disable() inside the "
+                "closure) would not be recorded and catch_panic would return a stale or placeholder message", x.node.get("sp", ""))
+        R.check(good, rule, fn, "the hook records iff this thread's catch level is > 0",
+                "condition is %s %s" % (cmpz[0]["op"] if cmpz else "?", lit_value(cmpz[0]["r"]) if cmpz else "?"), x.node.get("sp", ""))
+        # recorded into this thread's buffer, and nothing else (previous hook, abort) runs while catching
+        in_buf = any(any(c_ is cl_ for cl_ in x.in_closure) for t_ in sites if t_.node.get("k") == "MethodCall" and
+                     t_.node in _tls_with(t_.node, "PANIC_CATCHER_BACKTRACE") for c_ in [_closure_in(t_.node)] if c_ is not None)
+        leak = [y for y in sites if catching(y) is True and y.node.get("k") == "Call" and
+                (norm(y.node.get("callee", "")) == "std::process::abort" or
+                 (path_res(y.node.get("f", {})) or {}).get("r") == "local")]
+        R.check(len(rec_on) == 1 and in_buf and not leak, rule, fn,
+                "while catching, the message is recorded into the thread's buffer and the hook returns", where=x.node.get("sp", ""))
+        rec_if = {"then": clo["body"]}
+    # outside catch_panic the fallback mode decides
+    is_mode = lambda v: bool(_tls_with(S.resolve(v.node, v.frame).node, "PANIC_CATCHER_FALLBACK_MODE"))
+    prev = [y for y in sites if y.node.get("k") == "Call" and local_name(y.node.get("f", {})) == next_name and next_name]
+    aborts = [y for y in sites if y.node.get("k") == "Call" and norm(y.node.get("callee", "")) == "std::process::abort"]
+    if not prev and not aborts:
+        R.violation(rule, fn, "outside catch_panic the fallback mode decides", "neither the previous hook nor abort is reached", clo["sp"])
     else:
-        arms = {last_seg(pat_variant(a["pat"]) or "_"): a for a in fall["arms"]}
-        c = arms.get("Continue")
-        ok = False
-        if c:
-            t = tail(c["body"])
-            ok = t.get("k") == "Call" and local_name(t["f"]) == next_name and [local_name(x) for x in t["args"]] == closure_param_names(clo, 0)[:1]
-        R.check(ok, rule, fn, "Continue: the previously installed hook is called with the panic info", where=fall["sp"])
-        a = arms.get("Abort")
-        ok = bool(a) and any(norm(x.get("callee", "")) == "std::process::abort" for x in exprs(a["body"], "Call"))
-        R.check(ok, rule, fn, "Abort: the process aborts", where=fall["sp"])
+        ok = len(prev) == 1 and catching(prev[0]) is False and sem.nested_variants(prev[0].pc, is_mode, "PanicCatcherFallbackMode") == {"Continue"} and \
+            [local_name(a_) for a_ in prev[0].node["args"]] == closure_param_names(clo, 0)[:1]
+        R.check(ok, rule, fn, "Continue: the previously installed hook is called with the panic info", where=clo["sp"])
+        ok = len(aborts) >= 1 and all(catching(y) is False and sem.nested_variants(y.pc, is_mode, "PanicCatcherFallbackMode") == {"Abort"} for y in aborts)
+        R.check(ok, rule, fn, "Abort: the process aborts", where=clo["sp"])
     # the message is part of the recorded text
     hrs = {id(_recorder_of(E, c)): _recorder_of(E, c) for c in exprs(cb, "Call") if _recorder_of(E, c) is not None}
     hr = list(hrs.values())[0] if len(hrs) == 1 else None
